@@ -30,6 +30,11 @@ variable {S σ : Type} [Scalar S]
 theorem C07_pending_inv {cfg : Config S} (hdt : 0 ≤ cfg.dt) {P : NodeId → Proto S σ}
     {w : World S σ} (h : Reachable cfg P w) : PInv w := reachable_pinv hdt h
 
+/-- the same when callbacks may let exceptions escape under a driver that keeps stepping (`ReachableT`): a timer
+    whose handler raised is gone like any timer that fired, everybody else's bookkeeping is untouched -/
+theorem C07_pending_inv_tolerant {cfg : Config S} (hdt : 0 ≤ cfg.dt) {P : NodeId → Proto S σ}
+    {w : World S σ} (h : ReachableT cfg P w) : PInv w := reachableT_pinv hdt h
+
 /-- ... hence exactly one queued event per pending timer: two queued events for the same (node, id)
     are the same event -/
 theorem C07_one_event_per_timer {cfg : Config S} (hdt : 0 ≤ cfg.dt) {P : NodeId → Proto S σ}
